@@ -514,6 +514,18 @@ func VerifC15TrimEnumValues() {
 
 func VerifC15HintObject() {
 	in := c15Schemas(c15Gen(0))
+	// objects may already carry hints (set by a parser, an earlier pass, an earlier hint_object): they are kept
+	if v.Bool("existinghints") {
+		for _, s := range in {
+			c15Rebuild(s, func(o ast.Object) (ast.Object, bool) {
+				if o.Type.Hints == nil {
+					o.Type.Hints = ast.JenniesHints{}
+				}
+				o.Type.Hints["already"] = "there"
+				return o, false
+			})
+		}
+	}
 	sel := c15Obj()
 	hints := ast.JenniesHints{"k": v.Str("hint", "x", "y")}
 	ref := v.Clone(in)
